@@ -1,7 +1,9 @@
 package props
 
 import (
+	"fmt"
 	"go/ast"
+	"go/constant"
 	"go/types"
 	"strings"
 
@@ -198,5 +200,52 @@ func c18Observers(p *core.Program, r *core.Report) {
 		r.Viol("C18.observers", "config.ConfigObserver.Run", p.Pos(run.Decl.Pos()), "the ApplyConfig call is under a condition inside the loop over the observers: some registered observers are not notified")
 	default:
 		r.OK("C18.observers", "config.ConfigObserver.Run", p.Pos(run.Decl.Pos()), "ApplyConfig on every element of the loop over the observers")
+	}
+}
+
+// c18EscapeAll: written values read back unchanged only if the escaping applied on the way out is
+// applied to every occurrence. Every strings.Replace of the file parser/writer replaces all
+// occurrences (a negative count, or strings.ReplaceAll): a count of 1 escapes the first backslash of
+// a value and leaves the others to be read back as escapes.
+func c18EscapeAll(p *core.Program, r *core.Report) {
+	pk := p.Pkg("config/conffile")
+	if pk == nil {
+		return
+	}
+	for _, fi := range p.Funcs {
+		if fi.Pkg != pk || fi.Decl.Body == nil {
+			continue
+		}
+		info := fi.Pkg.TypesInfo
+		n := 0
+		ast.Inspect(fi.Decl.Body, func(m ast.Node) bool {
+			call, ok := m.(*ast.CallExpr)
+			if !ok {
+				return true
+			}
+			fn := calleeFunc(info, call)
+			if fn == nil || fn.Pkg() == nil || fn.Pkg().Path() != "strings" {
+				return true
+			}
+			if fn.Name() == "ReplaceAll" || (fn.Name() == "Replace" && len(call.Args) == 1) { // ReplaceAll, (*Replacer).Replace
+				n++
+				r.OK("C18.escape-all", fmt.Sprintf("%s strings.Replace #%d", core.FuncName(fi.Obj), n), p.Pos(call.Pos()), "replaces every occurrence")
+				return true
+			}
+			if fn.Name() != "Replace" || len(call.Args) != 4 {
+				return true
+			}
+			n++
+			c := fmt.Sprintf("%s strings.Replace #%d", core.FuncName(fi.Obj), n)
+			tv, ok := info.Types[call.Args[3]]
+			if !ok || tv.Value == nil {
+				r.OK("C18.escape-all", c, p.Pos(call.Pos()), "count is not a constant (not judged)")
+				return true
+			}
+			k, _ := constant.Int64Val(constant.ToInt(tv.Value))
+			r.Check(k < 0, "C18.escape-all", c, p.Pos(call.Pos()), "replaces every occurrence",
+				fmt.Sprintf("replaces only the first %d occurrence(s) of %s: a value with more of them is written half-escaped and does not read back as it was written", k, types.ExprString(call.Args[1])))
+			return true
+		})
 	}
 }
